@@ -85,9 +85,15 @@ Section Printer.
   Definition pr_time (t : Z) : bytes := quote (fmt_time t).
   Definition pr_otime (t : option Z) : bytes := match t with Some t => pr_time t | None => [] end.
 
-  Definition pr_range (r : range) : bytes :=
+  (* Range.makeString. A Range with both points absent comes from the text `RANGE [` only (the matched bracket
+     makes the struct): the code prints the bracket back. Variant [old = true] is the printer before the repair,
+     which wrote a blank and the (empty) first point for it. *)
+  Definition pr_range_v (old : bool) (r : range) : bytes :=
     match r_t2 r with
-    | None => sp :: pr_otime (r_t1 r)
+    | None => match r_t1 r with
+              | None => if old then [sp] else B " ["
+              | Some t1 => sp :: pr_time t1
+              end
     | Some t2 => B " [" ++ pr_otime (r_t1 r) ++ B ":" ++ pr_time t2 ++ B "]"
     end.
 
@@ -101,10 +107,10 @@ Section Printer.
     | _ => []
     end.
 
-  Definition pr_select (s : select) : bytes :=
+  Definition pr_select_v (old_range : bool) (s : select) : bytes :=
     B "SELECT" ++ pr_kw_str "" (s_format s) ++
     match s_source s with Some src => B " FROM" ++ pr_source src | None => [] end ++
-    match s_range s with Some r => B " RANGE" ++ pr_range r | None => [] end ++
+    match s_range s with Some r => B " RANGE" ++ pr_range_v old_range r | None => [] end ++
     match s_where s with Some e => B " WHERE" ++ pr_expr e | None => [] end ++
     match s_pos s with Some p => B " POSITION" ++ sp :: quote p | None => [] end ++
     pr_kw_int "OFFSET" (s_offset s) ++ pr_kw_int "LIMIT" (s_limit s).
@@ -150,10 +156,10 @@ Section Printer.
     match pi_from p with Some s => B " FROM" ++ pr_source s | None => [] end ++
     match pi_where p with Some e => B " WHERE" ++ pr_expr e | None => [] end.
 
-  Definition pr_lql_v (old_truncate : bool) (l : lql) : bytes :=
+  Definition pr_lql_v (old_truncate old_range : bool) (l : lql) : bytes :=
     match l with
     | LNone => []
-    | LSelect s => pr_select s
+    | LSelect s => pr_select_v old_range s
     | LDescribe d => pr_describe d
     | LTruncate t => pr_truncate_v old_truncate t
     | LShow s => pr_show s
@@ -166,8 +172,14 @@ End Printer.
 Definition code_truncate_old_printer : bool := false.
 Definition pr_truncate (quote : bytes -> bytes) (tags_line : tagset -> bytes) (fmt_time : Z -> bytes) : truncate -> bytes :=
   pr_truncate_v quote tags_line fmt_time code_truncate_old_printer.
+(* ... and the Range printer that writes `RANGE [` back *)
+Definition code_range_old_printer : bool := false.
+Definition pr_range (quote : bytes -> bytes) (fmt_time : Z -> bytes) : range -> bytes :=
+  pr_range_v quote fmt_time code_range_old_printer.
+Definition pr_select (quote : bytes -> bytes) (tags_line : tagset -> bytes) (fmt_time : Z -> bytes) : select -> bytes :=
+  pr_select_v quote tags_line fmt_time code_range_old_printer.
 Definition pr_lql (quote : bytes -> bytes) (tags_line : tagset -> bytes) (fmt_time : Z -> bytes) : lql -> bytes :=
-  pr_lql_v quote tags_line fmt_time code_truncate_old_printer.
+  pr_lql_v quote tags_line fmt_time code_truncate_old_printer code_range_old_printer.
 
 (* ---- the token image of the expression printers ---- *)
 Definition is_keyword_text (s : bytes) : bool := existsb (fun kw => fold_eq s kw) keywords.
@@ -239,7 +251,7 @@ Section StmtTokens.
 
   Definition tk_range (r : range) : list token :=
     match r_t2 r with
-    | None => match r_t1 r with Some t1 => [str_tok (fmt_time t1)] | None => [] end
+    | None => match r_t1 r with Some t1 => [str_tok (fmt_time t1)] | None => [kw_tok "["] end
     | Some t2 => kw_tok "[" :: match r_t1 r with Some t1 => [str_tok (fmt_time t1)] | None => [] end ++
                  [kw_tok ":"; str_tok (fmt_time t2); kw_tok "]"]
     end.
